@@ -79,7 +79,7 @@ fn dev_kind(d: &Dev) -> String {
 pub fn policy(id: u8, ucs: bool) -> SimplePolicy {
     policy_with(|p| {
         match id {
-            1 => {
+            1 | 3 => {
                 p.min_delay = 5;
                 p.max_delay = 10;
                 p.max_htlcs = 2;
@@ -93,6 +93,11 @@ pub fn policy(id: u8, ucs: bool) -> SimplePolicy {
                 p.max_htlc_value_sat = u64::MAX;
             }
             _ => {}
+        }
+        if id == 3 {
+            // the tight policy again, with every tag family that no commitment / set-up rule
+            // reports under demoted to a warning (the policy stays non-permissive for C05's bounds)
+            p.filter = unrelated_filter(&["policy-commitment", "policy-channel", "policy-funding"]);
         }
         p.use_chain_state = ucs;
     })
@@ -693,9 +698,15 @@ fn alphabet(case: &Case) -> Vec<Dev> {
 
 fn bases(tier: Tier) -> Vec<Case> {
     let mut v = vec![];
-    for pol in 0..3u8 {
+    for pol in 0..4u8 {
         for onchain in [false, true] {
+            if pol == 3 && onchain {
+                continue;
+            }
             for ucs in [false, true] {
+                if pol == 3 && ucs && tier == Tier::Quick {
+                    continue;
+                }
                 for anchors in [false, true] {
                     for outbound in [true, false] {
                         if tier == Tier::Quick && pol == 2 && (onchain || !outbound) {
